@@ -1204,7 +1204,9 @@ func builtinIsTruthy(_ *lisp.LEnv, _ *lisp.LVal) *lisp.LVal {
 				return lisp.Nil()
 			}
 		case lisp.LSortMap, lisp.LBytes:
-			if len(input.Cells) > 0 {
+			// A sorted-map's entries and a byte string's bytes live behind
+			// Native, not in Cells: Len() is what counts them.
+			if input.Len() > 0 {
 				return lisp.Nil()
 			}
 		case lisp.LString:
